@@ -7,4 +7,4 @@ Extraction Language OCaml.
 Extraction "../build/ocaml/C13/model.ml"
   run enabled cur_step cur_init cur_final cu_fb it_step it_init it_uaf sh_step sh_init sh_final sh_gone sh_pcI
   th_run th_cycles th_zombie th_live lock_table lock_table_palette respects_rank
-  c13_z_for_vutil cur_witness it_witness sh_witness sh_finishing M_send M_cursor M_upd M_list M_ref M_out.
+  c13_z_for_vutil cur_witness it_witness sh_witness sh_finishing sj_step sj_init sj_uaf sj_freed sj_final sj_witness M_send M_cursor M_upd M_list M_ref M_out.
